@@ -29,7 +29,7 @@ QT == <<"\"">>
 LB == <<"<">>
 RB == <<">">>
 Encs == {<<>>, <<<<QT>>>>, <<<<LB, RB>>>>, <<<<QT>>, <<LB, RB>>>>, <<<<LB, RB>>, <<QT>>>>}
-Syms == {<<>>, <<"&">>, <<"|", "|">>}
+Syms == {<<>>, <<"&">>, <<"|", "|">>, <<"X", "o">>}      \* the last one has cased letters: a symbol is reproduced verbatim, case folding is for the WORD only
 Delims == {<<>>, <<",">>, <<";", "SP">>}
 Kinds4 == {"AND", "OR", "NOT", "LIST"}
 
